@@ -244,9 +244,9 @@ class Solver:
         return node.z3
 
     # ------------------------------------------------------------------
-    def check(self, pc, extras=(), conds=()):
+    def check(self, pc, extras=(), conds=(), raw=()):
         """satisfiability of  pc(MDD) /\\ extras /\\ conds.  returns 'sat'|'unsat'|'unknown'"""
-        key = (pc.id if pc is not None else -1, tuple(e.id for e in extras), tuple(e.id if e.__class__ is Term else e for e in conds))
+        key = (pc.id if pc is not None else -1, tuple(e.id for e in extras), tuple(e.id if e.__class__ is Term else e for e in conds), tuple(r.get_id() for r in raw))
         r = self.cache.get(key)
         if r is not None:
             return r
@@ -256,14 +256,14 @@ class Solver:
             if cnd is False:
                 return 'unsat'
         if self.use_lia:
-            hard = False
+            hard = bool(raw)
             for e in tuple(extras) + tuple(conds):
                 if e.__class__ is Term and e.hard:
                     hard = True
                     break
             if hard:
                 try:
-                    r = self.lia.check(pc, extras, conds)
+                    r = self.lia.check(pc, extras, conds, raw=raw)
                     self.stats['solver_s'] += 0  # accounted in lia.stats
                     self.stats.setdefault('lia_' + r, 0)
                     self.stats['lia_' + r] += 1
